@@ -325,7 +325,8 @@ def r1(case, rec):
 def chunk_case(draw):
     c = draw(geno_case(max_snps=30))
     return dict(c, chunk=draw(st.sampled_from([50, 137, 400, 1000, 5000])), nboot=draw(st.integers(1, 4)), bseed=draw(st.integers(0, 2 ** 31 - 1)),
-                polarized=draw(st.booleans()), proj_frac=[draw(st.floats(0.3, 1.0)) for _ in range(c['P'])])
+                polarized=draw(st.booleans()), proj_frac=[draw(st.floats(0.3, 1.0)) for _ in range(c['P'])],
+                mask_corners=draw(st.booleans()))
 
 
 @REG.relation('R2-chunks-and-bootstraps', strategy=chunk_case, quick=(300, 16), thorough=(5000, 16))
@@ -353,38 +354,77 @@ def r2(case, rec):
             chrom, posn = k.rsplit('_', 1)
             cell.add((chrom, (int(posn) - 1) // case['chunk']))
         require(len(cell) <= 1, 'a chunk mixes chromosomes or genomic windows: %r' % sorted(cell))
+    mc = bool(case.get('mask_corners', False))
     with dadi_call('from_data_dict'):
-        whole = dadi.Spectrum.from_data_dict(dd, data.pops, projections, mask_corners=False, polarized=case['polarized'])
-        parts = [dadi.Spectrum.from_data_dict(f, data.pops, projections, mask_corners=False, polarized=case['polarized']) for f in frags]
+        whole = dadi.Spectrum.from_data_dict(dd, data.pops, projections, mask_corners=mc, polarized=case['polarized'])
+        parts = [dadi.Spectrum.from_data_dict(f, data.pops, projections, mask_corners=mc, polarized=case['polarized']) for f in frags]
+    wmask = np.ma.getmaskarray(whole)
+    if case['polarized']:
+        emask = np.zeros(whole.shape, bool)
+        if mc:
+            emask.flat[0] = emask.flat[-1] = True
+        require(np.array_equal(wmask, emask), 'from_data_dict(mask_corners=%r): masked entries %r' % (mc, np.argwhere(wmask != emask)[:3].tolist()))
+    for p_ in parts:
+        require(np.array_equal(np.ma.getmaskarray(p_), wmask), 'a chunk spectrum is masked differently from the whole-genome spectrum')
     tot = sum(np.asarray(np.ma.getdata(p), float) for p in parts)
-    require_close(tot, np.asarray(np.ma.getdata(whole), float), 1e-10, 'sum of chunk spectra vs the whole-genome spectrum', rec, key='chunks add up', atol=1e-12)
+    require_close(tot[~wmask], np.asarray(np.ma.getdata(whole), float)[~wmask], 1e-10, 'sum of chunk spectra vs the whole-genome spectrum', rec,
+                  key='chunks add up', atol=1e-12)
     random.seed(case['bseed'])
     with dadi_call('bootstraps_from_dd_chunks'):
-        boots = Misc.bootstraps_from_dd_chunks(frags, case['nboot'], data.pops, projections, mask_corners=False, polarized=case['polarized'])
+        boots = Misc.bootstraps_from_dd_chunks(frags, case['nboot'], data.pops, projections, mask_corners=mc, polarized=case['polarized'])
     require(len(boots) == case['nboot'], '%d bootstraps returned, %d requested' % (len(boots), case['nboot']))
-    arrs = [np.asarray(np.ma.getdata(p), float).ravel() for p in parts]
-    # distinct chunk spectra (empty windows give identical zero spectra) -> small multiset search
-    nchunks = len(arrs)
-    if nchunks <= 6:
-        combos = list(itertools.combinations_with_replacement(range(nchunks), nchunks))
-        sums = np.array([sum(arrs[i] for i in cmb) for cmb in combos])
-        for b in boots:
-            require(bool(b.folded) == (not case['polarized']), 'bootstrap folding status wrong')
-            bv = np.asarray(np.ma.getdata(b), float).ravel()
-            if not case['polarized']:
-                m = np.ma.getmaskarray(b).ravel()
-                if m.all():
-                    continue      # degenerate folded spectrum (a single chromosome): nothing unmasked to compare
-                hit = (np.abs(sums[:, ~m] - bv[~m]).max(axis=1) < 1e-9).any()
-            else:
-                hit = (np.abs(sums - bv).max(axis=1) < 1e-9).any()
-            require(hit, 'a bootstrap spectrum is not a sum of %d chunk spectra drawn with repetition' % nchunks)
-    else:
-        for b in boots:
-            # necessary condition: total between nchunks*min and nchunks*max of chunk totals, and entries bounded by nchunks*max entry
-            bv = np.asarray(np.ma.getdata(b), float).ravel()
-            tots = [a.sum() for a in arrs]
+    keep = ~wmask.ravel()
+    if not keep.any():
+        return                # degenerate folded spectrum (a single chromosome): nothing unmasked to compare
+    # distinct chunk spectra over the unmasked entries (windows with the same content give identical spectra; repetition is allowed
+    # anyway, so only the distinct ones matter)
+    nchunks = len(parts)
+    distinct = []
+    for p_ in parts:
+        a = np.asarray(np.ma.getdata(p_), float).ravel()[keep]
+        if not any(np.abs(a - d).max() < 1e-12 for d in distinct):
+            distinct.append(a)
+    distinct.sort(key=lambda a: -a.sum())
+    for b in boots:
+        require(bool(b.folded) == (not case['polarized']), 'bootstrap folding status wrong')
+        require(np.array_equal(np.ma.getmaskarray(b), wmask), 'bootstrap (mask_corners=%r) is masked differently from the spectra it sums: entries %r'
+                % (mc, np.argwhere(np.ma.getmaskarray(b) != wmask)[:3].tolist()))
+        bv = np.asarray(np.ma.getdata(b), float).ravel()[keep]
+        verdict = _is_multiset_sum(bv, distinct, nchunks)
+        rec.label('bootstrap decided exactly' if verdict is not None else 'bootstrap search budget exhausted (range check only)')
+        if verdict is None:
+            tots = [a.sum() for a in distinct]
             require(nchunks * min(tots) - 1e-9 <= bv.sum() <= nchunks * max(tots) + 1e-9, 'bootstrap total outside the range of %d-chunk sums' % nchunks)
+        else:
+            require(verdict, 'a bootstrap spectrum is not a sum of %d chunk spectra drawn with repetition' % nchunks)
+
+
+def _is_multiset_sum(target, items, count, budget=200000):
+    """Is target = sum of `count` items drawn with repetition?  Depth-first over how often each distinct item is used; items are
+    non-negative, so an item can be used at most min(remaining/item) times.  True / False, or None when the node budget runs out."""
+    target = np.array(target, float)
+    tol = 1e-9 * (1.0 + float(np.abs(target).max()))
+    nz = [a for a in items if a.max() > 0]
+    has_zero = len(nz) < len(items)        # an all-zero chunk spectrum absorbs any number of draws
+    nodes = [0]
+
+    def go(i, remaining, left):
+        nodes[0] += 1
+        if nodes[0] > budget:
+            raise OverflowError
+        if i == len(nz):
+            return (left == 0 or has_zero) and bool(np.abs(remaining).max() <= tol)
+        a = nz[i]
+        pos = a > 0
+        cmax = int(min(left, np.floor(((remaining[pos] + tol) / a[pos]).min())))
+        for c in range(cmax, -1, -1):
+            if go(i + 1, remaining - c * a, left - c):
+                return True
+        return False
+    try:
+        return go(0, target, count)
+    except OverflowError:
+        return None
 
 
 @st.composite
